@@ -428,6 +428,21 @@ def r_toggle(doc, op):
           {'isFormula': True, 'formula': formula_text(doc, t['id'], op['f'], self_col=c['colId'], max_ref=c['id'])}]
 
 
+def r_retoggle(doc, op):
+  """One ModifyColumn that both toggles formula/data and changes the type (the client's column-type dialog can
+  do both at once): the same cells then get a conversion delta and a calculation delta in one bundle."""
+  t, c = _pick_col(doc, op)
+  if not c: return None
+  typ = DATA_TYPES[int(op['t']) % len(DATA_TYPES)]
+  if typ.split(':')[0] not in GROUPABLE and any(x['summarySourceCol'] == c['id'] for x in doc.columns_meta()):
+    typ = 'Text'
+  if c['isFormula']:
+    return ['ModifyColumn', t['tableId'], c['colId'], {'isFormula': False, 'type': typ}]
+  return ['ModifyColumn', t['tableId'], c['colId'],
+          {'isFormula': True, 'type': typ,
+           'formula': formula_text(doc, t['id'], op['f'], self_col=c['colId'], max_ref=c['id'])}]
+
+
 def r_rmtable(doc, op):
   t = _tables(doc, op['a'], include_summary=False)
   if not t: return None
@@ -743,7 +758,7 @@ RESOLVERS = {
   'reverse': r_reverse, 'meta_col': r_meta_col, 'meta_table': r_meta_table, 'meta_rmcol': r_meta_rmcol,
   'meta_rmtable': r_meta_rmtable, 'meta_rmfield': r_meta_rmfield, 'rawtitle': r_rawtitle,
   'displaycol': r_displaycol, 'rule': r_rule, 'trigger': r_trigger, 'choices': r_choices,
-  'copyfrom': r_copyfrom, 'bad': r_bad, 'revive': r_revive, 'rmref': r_rmref, 'sortspec': r_sortspec,
+  'copyfrom': r_copyfrom, 'bad': r_bad, 'revive': r_revive, 'rmref': r_rmref, 'sortspec': r_sortspec, 'retoggle': r_retoggle,
 }
 
 SCHEMA_KINDS = set(RESOLVERS) - {'add', 'update', 'remove', 'replace', 'bad'}
@@ -779,6 +794,8 @@ def op_strategy(kind):
     base.update(b=_sel, t=st.integers(0, 11), c=_sel)
   elif kind in ('modformula', 'toggle'):
     base.update(b=_sel, f=fspec())
+  elif kind == 'retoggle':
+    base.update(b=_sel, t=st.integers(0, 11), f=fspec())
   elif kind in ('rentable', 'duptable', 'meta_table', 'rawtitle'):
     base.update(name=st.integers(0, len(TABLE_NAMES) - 1), c=_sel)
   elif kind in ('summary', 'summaryupd', 'sortspec'):
@@ -804,7 +821,7 @@ PROFILES = {
     'modformula': 4, 'toggle': 2, 'rmtable': 1, 'rentable': 3, 'duptable': 1,
     'summary': 4, 'summaryupd': 2, 'detach': 1, 'addview': 1, 'addsection': 1, 'rmsection': 1, 'rmview': 1,
     'reverse': 2, 'meta_col': 4, 'meta_table': 1, 'meta_rmcol': 1, 'meta_rmtable': 1, 'meta_rmfield': 1,
-    'rawtitle': 1, 'displaycol': 1, 'rule': 1, 'trigger': 2, 'choices': 1, 'copyfrom': 1, 'bad': 2, 'sortspec': 2,
+    'rawtitle': 1, 'displaycol': 1, 'rule': 1, 'trigger': 2, 'choices': 1, 'copyfrom': 1, 'bad': 2, 'sortspec': 2, 'retoggle': 2,
   },
   'formula': {
     'add': 12, 'update': 14, 'remove': 5,
@@ -818,17 +835,17 @@ PROFILES = {
     'modformula': 2, 'toggle': 3, 'rmtable': 2, 'rentable': 3, 'duptable': 1,
     'summary': 4, 'summaryupd': 3, 'detach': 2, 'addview': 2, 'addsection': 2, 'rmsection': 2, 'rmview': 2,
     'reverse': 3, 'meta_col': 6, 'meta_table': 2, 'meta_rmcol': 3, 'meta_rmtable': 2, 'meta_rmfield': 2,
-    'rawtitle': 2, 'displaycol': 2, 'rule': 2, 'trigger': 2, 'choices': 1, 'copyfrom': 1, 'bad': 3, 'sortspec': 3,
+    'rawtitle': 2, 'displaycol': 2, 'rule': 2, 'trigger': 2, 'choices': 1, 'copyfrom': 1, 'bad': 3, 'sortspec': 3, 'retoggle': 3,
   },
   # type changes of columns that formulas, summary tables and two-way references depend on
   'typechange': {
     'add': 8, 'update': 6, 'remove': 2, 'addcol': 3, 'addfcol': 8, 'addref': 3, 'modtype': 14, 'modformula': 2,
-    'toggle': 3, 'summary': 4, 'reverse': 2, 'meta_col': 3, 'rmcol': 1, 'copyfrom': 2,
+    'toggle': 3, 'summary': 4, 'reverse': 2, 'meta_col': 3, 'rmcol': 1, 'copyfrom': 2, 'retoggle': 5,
   },
   # several schema steps in ONE bundle: removal/conversion followed by renames (undo must use the right names)
   'combo': {
     'rmcol': 6, 'rencol': 8, 'rentable': 8, 'modtype': 5, 'toggle': 3, 'rmtable': 2, 'meta_col': 4, 'meta_table': 3,
-    'addfcol': 5, 'add': 4, 'update': 3, 'remove': 2, 'meta_rmcol': 2, 'addcol': 2, 'rawtitle': 2,
+    'addfcol': 5, 'add': 4, 'update': 3, 'remove': 2, 'meta_rmcol': 2, 'addcol': 2, 'rawtitle': 2, 'retoggle': 3,
   },
   # data edits under reference-following formulas
   'refdata': {'revive': 1, 'update': 22, 'add': 6, 'remove': 5, 'addfcol': 9, 'addref': 5, 'modformula': 2, 'reverse': 1, 'modtype': 1},
